@@ -37,8 +37,7 @@ PROP = {
     "partial": "Theorems cover every kind and every value for codecs, equality, ordering, hashing, integer casts, "
                "int/f32 -> f64 conversion and key comparison. Not proved (tied differentially only): the numeric result of "
                "f64 -> f32 narrowing and of int -> f32 conversion (`roundMag` at 24 bits is executed and compared on ~3000 cases "
-               "per run, exactness is proved for binary64 only); float -> int casts are proved to return `truncF64` of the input, "
-               "whose defining formula is itself the specification of truncation; float arithmetic is not modelled.",
+               "per run, exactness is proved for binary64 only); float arithmetic is not modelled.",
     "trusted": [],
 }
 
